@@ -391,11 +391,16 @@ class ManifestBench:
                         file_size_in_bytes=1, lower_bounds=None if lo is None else dict(lo), upper_bounds=None if hi is None else dict(hi),
                         added_snapshot_id=7 if existing else None, sequence_number=1 if existing else None)
 
-    def trip(self, added: List[Tuple[Any, Any]], existing: List[Tuple[Any, Any]], want_raw: bool = False) -> Tuple[List[Any], List[Any], List[Any]]:
-        """One create_manifest_file(added, existing_files=existing) -> read_manifest_file.  Returns (DataFiles written in entry
-        order, DataFiles read back, raw Avro records if asked)."""
-        a = [self.datafile(lo, hi) for lo, hi in added]
-        e = [self.datafile(lo, hi, True) for lo, hi in existing]
+    def trip(self, added: List[Tuple[Any, Any]], existing: List[Tuple[Any, Any]], want_raw: bool = False,
+             objects: Optional[Tuple[List[Any], List[Any]]] = None) -> Tuple[List[Any], List[Any], List[Any]]:
+        """One create_manifest_file(added, existing_files=existing) -> read_manifest_file.  Returns (the DataFile objects handed to
+        the writer, in entry order; the DataFiles read back; the raw Avro records if asked).  `objects` re-uses DataFile objects
+        that were already written once (a retried commit rebuilds its manifests from the same in-memory objects)."""
+        if objects is None:
+            a = [self.datafile(lo, hi) for lo, hi in added]
+            e = [self.datafile(lo, hi, True) for lo, hi in existing]
+        else:
+            a, e = objects
         mf = self.fm.create_manifest_file(a, snapshot_id=9, existing_files=e, sequence_number=2)
         self.manifests += 1
         path = mf.manifest_path.lstrip("/")
@@ -477,27 +482,38 @@ def manifest_case_unjson(j: Dict[str, Any]) -> Dict[str, Any]:
 
 
 def manifest_case_problems(bench: ManifestBench, case: Dict[str, Any]) -> List[Dict[str, Any]]:
-    """Implementation only: every entry of the manifest comes back in its place with its own bounds, value AND type."""
-    written, back, _raw = bench.trip(case["added"], case["existing"])
-    if len(back) != len(written):
-        return [{"what": f"{len(written)} entries written, {len(back)} read back", "from": "list", "to": "list"}]
+    """Implementation only: every entry of the manifest comes back in its place with its own bounds, value AND type -- from the
+    first manifest written for these DataFile objects, and from a second one written from the same objects."""
+    inputs = case["added"] + case["existing"]
+    written, back1, _raw = bench.trip(case["added"], case["existing"])
+    paths = [w.file_path for w in written]
+    try:
+        _w, back2, _raw = bench.trip([], [], objects=(written[:len(case["added"])], written[len(case["added"]):]))
+    except Exception as e:      # noqa: BLE001
+        return [{"what": f"writing a second manifest from the same DataFile objects raises {e!r}"[:300], "from": "rewrite", "to": "raises"}]
     out = []
-    for i, (w, b) in enumerate(zip(written, back)):
-        if w.file_path != b.file_path:
-            out.append({"what": f"entry {i}: file {w.file_path} came back as {b.file_path}", "from": "path", "to": "path"})
+    for trip_no, back in ((1, back1), (2, back2)):
+        tn = "" if trip_no == 1 else " (second manifest written from the same DataFile objects)"
+        if len(back) != len(inputs):
+            out.append({"what": f"{len(inputs)} entries written, {len(back)} read back{tn}", "from": "list", "to": "list"})
             continue
-        for side, ow, bw in (("lower", w.lower_bounds, b.lower_bounds), ("upper", w.upper_bounds, b.upper_bounds)):
-            if bounds_same(ow, bw):
+        for i, ((olo, ohi), path, b) in enumerate(zip(inputs, paths, back)):
+            if path != b.file_path:
+                out.append({"what": f"entry {i}: file {path} came back as {b.file_path}{tn}", "from": "path", "to": "path"})
                 continue
-            o_, b_ = ow or {}, bw or {}
-            if set(o_) != set(b_):
-                out.append({"what": f"entry {i}: {side} bounds of fields {sorted(o_)} came back for fields {sorted(b_)}", "from": "ids", "to": "ids"})
-                continue
-            for k in o_:
-                if not same(o_[k], b_[k]):
-                    out.append({"what": f"entry {i} ({'ADDED' if i < len(case['added']) else 'EXISTING'}), field {k}: {side} bound "
-                                        f"{o_[k]!r} ({type(o_[k]).__name__}) came back from the manifest as {b_[k]!r} ({type(b_[k]).__name__})",
-                                "from": type(o_[k]).__name__, "to": type(b_[k]).__name__})
+            for side, ow, bw in (("lower", olo, b.lower_bounds), ("upper", ohi, b.upper_bounds)):
+                if bounds_same(ow, bw):
+                    continue
+                o_, b_ = ow or {}, bw or {}
+                if set(o_) != set(b_):
+                    out.append({"what": f"entry {i}: {side} bounds of fields {sorted(o_, key=repr)} came back for fields {sorted(b_, key=repr)}{tn}",
+                                "from": "ids", "to": "ids"})
+                    continue
+                for k in o_:
+                    if not same(o_[k], b_[k]):
+                        out.append({"what": f"entry {i} ({'ADDED' if i < len(case['added']) else 'EXISTING'}), field {k}: {side} bound "
+                                            f"{o_[k]!r} ({type(o_[k]).__name__}) came back from the manifest as {b_[k]!r} ({type(b_[k]).__name__}){tn}",
+                                    "from": type(o_[k]).__name__, "to": type(b_[k]).__name__})
     return out
 
 
@@ -622,7 +638,7 @@ def oracle_unsound(ctx, bench: ManifestBench) -> None:
                             own.append(t)
                 for op in SCALAR_OPS:
                     if ctx.tier == "thorough":
-                        lits = same_kind_lits
+                        lits = same_kind_lits if plain else ctx.rng.sample(same_kind_lits, 10)
                     elif plain:
                         lits = ctx.rng.sample(same_kind_lits, 8) + dom[:3]
                     else:
@@ -767,7 +783,7 @@ def oracle_e2e(ctx) -> None:
     from datashard import create_table
     from datashard.data_structures import Schema
     rng = ctx.rng
-    ntables = 24 if ctx.tier == "quick" else 200
+    ntables = 32 if ctx.tier == "quick" else 240
     kinds = list(E2E_DOMAIN)
     total = 0
     skipped_raise = 0
@@ -846,6 +862,16 @@ def oracle_e2e(ctx) -> None:
                 for lit in lits:
                     for opn in ("==", "!=", "<", "<=", ">", ">="):
                         directed.append({f"c{i}": (opn, lit)})
+        # directed: on every column with bounds, the values the files really hold (a file whose min or max IS the literal must be kept)
+        for i, kind in enumerate(cols):
+            if kind == "binary":
+                continue
+            present = [v for v in {repr(r.get(f"c{i}")): r.get(f"c{i}") for f in files for r in f}.values()
+                       if v is not None and not (isinstance(v, float) and v != v)]
+            for v in rng.sample(present, min(3, len(present))):
+                for opn in ("==", "<=", ">="):
+                    directed.append({f"c{i}": (opn, v)})
+                directed.append({f"c{i}": ("in", [v])})
         if twins:
             # directed: on every column, the decisions that depend on the TYPE of the stored bound (!= on float bounds, in / not_in
             # across bool / int / float), with each number present written as int, float and bool
